@@ -626,7 +626,7 @@ fn c06_close_flow_local_established() {
         assert!(seen == NOTHING || (seen.op == 2 && seen.id == id), "C06.abort.after_finish: at most a Reset of this flow");
     }
     assert!(out_empty(&mut w.tx_msg_rx), "C06.abort.single: never more than one frame");
-    assert!(s.finish_sent.load(Ordering::Relaxed), "C06+C08.abort.writes_fail: later writes fail with BrokenPipe");
+    assert!(s.finish_sent.load(Ordering::Relaxed), "C05+C06+C08.abort.writes_fail: later writes fail with BrokenPipe");
     let mut c = cx();
     assert!(matches!(s.poll_for_push(&mut c), Poll::Ready(0)), "C06+C08.abort.eof: the reader gets end-of-stream");
     core::mem::forget((s, w));
